@@ -4,6 +4,7 @@ from vf.props import c01
 
 class C04(c01.C01):
     id = 'C04'
+    anchors = ('Market._SearchSupplier', 'Market._GenerateTermsLowLevel', 'Market._GenerateMultiSupply', 'MoneyMarket._GenerateEquations', 'DepositMarket._GenerateEquations', 'Sector.GenerateAssetWeighting')
     title = 'Markets clear and supply is fully allocated among suppliers'
     rule = ('same model workload as C01 (random topologies built and solved by the real code, emitted text re-solved '
             'exactly); for every goods, labour, money and deposit market of every model and every k>=1: market demand == '
